@@ -23,6 +23,7 @@ func init() {
 func runC07(c *Ctx, r *Run) {
 	r.Rule("OB-Q1", "store-then-process: accepted messages are stored before the early return on a round mismatch; entering a round replays that round's queues before recursing")
 	r.Rule("OB-Q2", "first message wins: duplicate() filters, store() never overwrites, stale rounds are rejected")
+	r.Rule("OB-Q4", "every message is queued under its own RoundNumber and From (both handlers)")
 	r.Rule("OB-Q3", "broadcast before p2p per sender: p2p verification waits for the sender's broadcast; the broadcast handler then drains the queued p2p message")
 	r.Rule("DET-1", "no hash/transcript write inside an iteration over a Go map")
 	r.Rule("RG-1", "content RoundNumber() equals the consuming round's Number()")
@@ -35,13 +36,14 @@ func runC07(c *Ctx, r *Run) {
 	dup := c.LookupMethod("pkg/protocol", "MultiHandler", "duplicate")
 	vm := c.LookupMethod("pkg/protocol", "MultiHandler", "verifyMessage")
 	vb := c.LookupMethod("pkg/protocol", "MultiHandler", "verifyBroadcastMessage")
-	if H == nil || acc == nil || fin == nil || store == nil || dup == nil || vm == nil || vb == nil {
-		r.Unresolved("OB-Q1", "pkg/protocol.MultiHandler methods (Accept, finalize, store, duplicate, verifyMessage, verifyBroadcastMessage)")
+	if H == nil || acc == nil || fin == nil || store == nil || vm == nil || vb == nil {
+		r.Unresolved("OB-Q1", "pkg/protocol.MultiHandler methods (Accept, finalize, store, verifyMessage, verifyBroadcastMessage)")
 		return
 	}
-	for _, f := range []*ssa.Function{acc, fin, store, dup, vm, vb} {
+	for _, f := range []*ssa.Function{acc, fin, store, vm, vb} {
 		r.Analysed(c.FuncName(f))
 	}
+	_ = dup
 
 	// ---- OB-Q1
 	{
@@ -122,59 +124,7 @@ func runC07(c *Ctx, r *Run) {
 
 	// ---- OB-Q2
 	{
-		// duplicate's result feeds Accept's early-return chain
-		usesDup := false
-		allInstrs(acc, func(in ssa.Instruction) {
-			if iff, ok := in.(*ssa.If); ok {
-				if call, ok := iff.Cond.(*ssa.Call); ok && call.Call.StaticCallee() == dup {
-					// true edge returns
-					t := iff.Block().Succs[0]
-					for _, x := range t.Instrs {
-						if _, isRet := x.(*ssa.Return); isRet {
-							usesDup = true
-						}
-					}
-					if len(t.Instrs) > 0 {
-						if _, isJ := t.Instrs[len(t.Instrs)-1].(*ssa.Jump); isJ {
-							usesDup = true
-						}
-					}
-				}
-			}
-		})
-		r.Check("OB-Q2", "pkg/protocol.(*MultiHandler).Accept|duplicate-filters", c.Pos(acc.Pos()), usesDup, "a second message for an occupied (round, sender, kind) slot is ignored", "Accept does not consult duplicate(msg)")
-		// store never overwrites
-		var mu *ssa.MapUpdate
-		allInstrs(store, func(in ssa.Instruction) {
-			if x, ok := in.(*ssa.MapUpdate); ok {
-				mu = x
-			}
-		})
-		okNo := false
-		if mu != nil {
-			// dominated by `q[msg.From] == nil` edge
-			for d := mu.Block(); d != nil; d = d.Idom() {
-				if len(d.Preds) != 1 {
-					continue
-				}
-				p := d.Preds[0]
-				iff, ok := p.Instrs[len(p.Instrs)-1].(*ssa.If)
-				if !ok {
-					continue
-				}
-				bo, ok := iff.Cond.(*ssa.BinOp)
-				if !ok || !isNilConst(bo.Y) {
-					continue
-				}
-				if _, isLk := bo.X.(*ssa.Lookup); !isLk {
-					continue
-				}
-				if (bo.Op == token.NEQ && p.Succs[1] == d) || (bo.Op == token.EQL && p.Succs[0] == d) {
-					okNo = true
-				}
-			}
-		}
-		r.Check("OB-Q2", "pkg/protocol.(*MultiHandler).store|never-overwrites", c.Pos(store.Pos()), okNo, "store writes a slot only while it is empty (the first message wins)", "store overwrites an occupied slot: a duplicate or a late equivocation replaces the message already processed")
+		checkFirstCopyWins(c, r, "OB-Q2")
 		checkGuardInventory(c, r, "OB-Q2", "round_guards.json", func(n string) bool {
 			return n == "pkg/protocol.(*MultiHandler).duplicate" || strings.HasSuffix(n, ".canAccept")
 		})
@@ -294,9 +244,192 @@ func runC07(c *Ctx, r *Run) {
 
 	checkRoundWindow(c, r)
 
+	// ---- OB-Q4: a message is queued under its own round number and sender, in both handlers
+	if p := c.PkgRel("pkg/protocol"); p != nil {
+		n := 0
+		for _, fn := range funcsOfPkg(c, c.SSA[p.Types]) {
+			fn := fn
+			allInstrs(fn, func(in ssa.Instruction) {
+				mu, ok := in.(*ssa.MapUpdate)
+				if !ok {
+					return
+				}
+				if nn := namedOf(derefType(mu.Value.Type())); nn == nil || nn.Obj().Name() != "Message" {
+					return
+				}
+				if _, isPtr := mu.Value.Type().Underlying().(*types.Pointer); !isPtr {
+					return
+				}
+				if isNilConst(mu.Value) {
+					return // slot initialisation
+				}
+				msgPath := path(mu.Value)
+				own := func(k ssa.Value) (bool, string) {
+					kp := path(k)
+					return kp == msgPath+".RoundNumber" || kp == msgPath+".From", kp
+				}
+				keys := []ssa.Value{mu.Key}
+				// the inner map was looked up in the round-indexed table: that key too (through the phi of `q`)
+				var outer func(v ssa.Value, d int)
+				outer = func(v ssa.Value, d int) {
+					if d > 4 {
+						return
+					}
+					switch x := resolveLoad(v).(type) {
+					case *ssa.Lookup:
+						keys = append(keys, x.Index)
+					case *ssa.Phi:
+						for _, e := range x.Edges {
+							outer(e, d+1)
+						}
+					}
+				}
+				outer(mu.Map, 0)
+				for i, k := range keys {
+					n++
+					ok, kp := own(k)
+					r.Check("OB-Q4", fmt.Sprintf("%s|queue key %d of %s", c.FuncName(fn), i, msgPath), c.Pos(mu.Pos()), ok,
+						"the message is filed under its own header field ("+kp+")",
+						"the message "+msgPath+" is filed under "+kp+", not under its own RoundNumber/From: a duplicated, retransmitted or early message is later processed as if it belonged to another round or sender")
+				}
+				r.Analysed(c.FuncName(fn))
+			})
+		}
+		_ = n
+	}
+	r.Require("OB-Q4", 4)
 	r.Require("OB-Q1", 4)
 	r.Require("OB-Q2", 5)
 	r.Require("OB-Q3", 2)
 	r.Require("RG-1", 30)
 	r.Require("RG-2", 9)
+}
+
+// checkFirstCopyWins: the handler processes at most one message per (round, sender, kind): Accept filters a second
+// copy before anything is processed, and store never replaces an occupied slot. Shared by C07 (duplication in the
+// schedule), C06 (the echo hash vouches for the first copy, so the round must consume the first copy) and C03.
+func checkFirstCopyWins(c *Ctx, r *Run, rule string) {
+	acc := c.LookupMethod("pkg/protocol", "MultiHandler", "Accept")
+	store := c.LookupMethod("pkg/protocol", "MultiHandler", "store")
+	dup := c.LookupMethod("pkg/protocol", "MultiHandler", "duplicate")
+	if acc == nil || store == nil {
+		r.Unresolved(rule, "pkg/protocol.(*MultiHandler).Accept/store")
+		return
+	}
+	// the processing calls of Accept
+	var processing []*ssa.Call
+	allInstrs(acc, func(in ssa.Instruction) {
+		if call, ok := in.(*ssa.Call); ok {
+			if f := call.Call.StaticCallee(); f != nil {
+				switch canonFnName(f) {
+				case "verifyMessage", "verifyBroadcastMessage", "store":
+					processing = append(processing, call)
+				}
+			}
+		}
+	})
+	// a branch that lets only an empty slot through: the duplicate helper, or an inline `queue[..][msg.From] != nil`;
+	// its "occupied" edge leaves Accept without any processing, its other edge dominates all processing
+	filters := false
+	leaves := func(b *ssa.BasicBlock) bool {
+		seen := map[*ssa.BasicBlock]bool{}
+		for b != nil && !seen[b] {
+			seen[b] = true
+			for _, in := range b.Instrs {
+				switch in.(type) {
+				case *ssa.Return:
+					return true
+				case *ssa.Call:
+					return false
+				}
+			}
+			if len(b.Succs) != 1 {
+				return false
+			}
+			b = b.Succs[0]
+		}
+		return false
+	}
+	for _, blk := range acc.Blocks {
+		if len(blk.Instrs) == 0 {
+			continue
+		}
+		iff, ok := blk.Instrs[len(blk.Instrs)-1].(*ssa.If)
+		if !ok {
+			continue
+		}
+		cond, neg := iff.Cond, false
+		if u, ok := cond.(*ssa.UnOp); ok && u.Op == token.NOT {
+			cond, neg = u.X, true
+		}
+		occupiedOnTrue := false
+		isDup := false
+		if call, ok := cond.(*ssa.Call); ok && dup != nil && call.Call.StaticCallee() == dup {
+			isDup, occupiedOnTrue = true, true
+		}
+		if bo, ok := cond.(*ssa.BinOp); ok && (isNilConst(bo.Y) || isNilConst(bo.X)) {
+			side := bo.X
+			if isNilConst(bo.X) {
+				side = bo.Y
+			}
+			if lk, ok := resolveLoad(side).(*ssa.Lookup); ok && strings.HasSuffix(path(lk.Index), ".From") {
+				isDup, occupiedOnTrue = true, bo.Op == token.NEQ
+			}
+		}
+		if !isDup {
+			continue
+		}
+		if neg {
+			occupiedOnTrue = !occupiedOnTrue
+		}
+		occ, free := blk.Succs[0], blk.Succs[1]
+		if !occupiedOnTrue {
+			occ, free = free, occ
+		}
+		if !leaves(occ) {
+			continue
+		}
+		all := len(processing) > 0
+		for _, pc := range processing {
+			if !(free == pc.Block() || free.Dominates(pc.Block())) {
+				all = false
+			}
+		}
+		if all {
+			filters = true
+		}
+	}
+	r.Check(rule, "pkg/protocol.(*MultiHandler).Accept|duplicate-filters", c.Pos(acc.Pos()), filters, "a second message for an occupied (round, sender, kind) slot is dropped before anything is stored or processed",
+		"Accept stores/processes a message without first testing that its (round, sender, kind) slot is empty: a second copy is processed although the queue (and the echo hash computed from it) keeps the first, so the round consumes data nobody vouched for")
+	// store never overwrites
+	var mu *ssa.MapUpdate
+	allInstrs(store, func(in ssa.Instruction) {
+		if x, ok := in.(*ssa.MapUpdate); ok {
+			mu = x
+		}
+	})
+	okNo := false
+	if mu != nil {
+		for d := mu.Block(); d != nil; d = d.Idom() {
+			if len(d.Preds) != 1 {
+				continue
+			}
+			p := d.Preds[0]
+			iff, ok := p.Instrs[len(p.Instrs)-1].(*ssa.If)
+			if !ok {
+				continue
+			}
+			bo, ok := iff.Cond.(*ssa.BinOp)
+			if !ok || !isNilConst(bo.Y) {
+				continue
+			}
+			if _, isLk := bo.X.(*ssa.Lookup); !isLk {
+				continue
+			}
+			if (bo.Op == token.NEQ && p.Succs[1] == d) || (bo.Op == token.EQL && p.Succs[0] == d) {
+				okNo = true
+			}
+		}
+	}
+	r.Check(rule, "pkg/protocol.(*MultiHandler).store|never-overwrites", c.Pos(store.Pos()), okNo, "store writes a slot only while it is empty (the first message wins)", "store overwrites an occupied slot: a duplicate or a late equivocation replaces the message already processed")
 }
